@@ -1,6 +1,10 @@
 package mc
 
-import "fmt"
+import (
+	"fmt"
+	"os"
+	"strings"
+)
 
 const trustNote = "Cosmos SDK bank/distribution/store, cosmossdk.io/math and collections are trusted"
 
@@ -183,6 +187,20 @@ func PlanFor(prop, tier string) (*Plan, error) {
 			p.Scenarios = append(q.Scenarios, p.Scenarios...)
 			p.TimeCapS = 900
 		}
+	}
+	// Development aid (never set by the registered commands): VERIF_ONLY="S11,S13" keeps only the
+	// scenarios whose name starts with one of the prefixes, to dry-run new scenarios at a tier's budgets.
+	if only := os.Getenv("VERIF_ONLY"); only != "" && p.Custom == nil {
+		var keep []*Scenario
+		for _, sc := range p.Scenarios {
+			for _, pre := range strings.Split(only, ",") {
+				if strings.HasPrefix(sc.Name, pre) {
+					keep = append(keep, sc)
+					break
+				}
+			}
+		}
+		p.Scenarios = keep
 	}
 	return p, nil
 }
